@@ -205,11 +205,9 @@ def fanout(ctx: Ctx, module: str, func: str, args: list, nproc: int = 16, timeou
         while pending or running:
             while pending and len(running) < nproc:
                 slot = slots.acquire()
-                if slot is None and running:
+                if slot is None and len(running) >= 2:
                     break  # machine-wide bound reached: wait for a free slot (own workers keep running)
-                if slot is None:
-                    time.sleep(0.2)
-                    continue
+                # no free slot, fewer than two own workers: start anyway - every check always makes progress (no starvation by greedier ones)
                 idx, arg = pending.pop(0)
                 inp = os.path.join(tmpdir, f'in{idx}.json')
                 out = os.path.join(tmpdir, f'out{idx}.json')
